@@ -159,6 +159,16 @@ pub fn gen(stream: &str, tier: &str, seed: u64) -> Vec<String> {
                     out.push(format!("{} {}", op, hex(format!("$SYS/{}", c).as_bytes())));
                 }
             }
+            // every structural SHAPE padded to the maximum length (a 16-bit index + 1 or + 2 overflows only there)
+            for total in [65_533usize, 65_534, 65_535, 65_536] {
+                for shape in ["$share/{F}/", "$share/{F}/t", "$share/{F}", "$share/g/{F}", "$share/g/{F}/#", "$share/g/{F}/", "{F}/#", "{F}/+", "+/{F}", "{F}#", "{F}+", "$SYS/{F}", "{F}/", "/{F}", "{F}/+/#", "$share/{F}/+/#"] {
+                    let fixed = shape.len() - 3;
+                    if total > fixed {
+                        let st = shape.replace("{F}", &"a".repeat(total - fixed));
+                        out.push(format!("{} {}", op, hex(st.as_bytes())));
+                    }
+                }
+            }
             // DEPTH: many levels (a level counter kept in a u8 / u16 wraps at 256 / 65,536 levels)
             for n in [254usize, 255, 256, 257, 258, 259, 260, 511, 512, 513, 1023, 1024, 1025, 4095, 4096, 32_767] {
                 let deep = vec!["a"; n].join("/");
@@ -1235,6 +1245,10 @@ pub fn proto_names() -> Vec<Vec<u8>> {
                 names.push(st.into_bytes());
             }
         }
+    }
+    // short names that are valid UTF-8 but not ASCII (fullwidth / accented lookalikes)
+    for n in ["MQT\u{166}", "MQ\u{130}sdp", "\u{ff2d}\u{ff31}\u{ff34}\u{ff34}", "MQTT\u{e9}", "\u{e9}MQTT", "M\u{51}TT\u{301}", "\u{1f600}"] {
+        names.push(n.as_bytes().to_vec());
     }
     names.push(b"MQTTdp".to_vec());
     names.push(b"MQIs".to_vec());
